@@ -33,7 +33,9 @@ def read_log(path, m):
     return [int(l) // m for l in open(path).read().split()]
 
 
-def make_proc_class():
+def make_proc_class(collective=False):
+    """collective=True: creating the results datasets is a collective operation (as under MPI with the parallel
+    HDF5 driver): the first rank to arrive creates them, the others open them"""
     from pyUSID.processing.process import Process
     from pyUSID.io.hdf_utils import create_results_group
     from sidpy.hdf.hdf_utils import write_simple_attrs
@@ -46,6 +48,12 @@ def make_proc_class():
             self.h5_results = None
 
         def _create_results_datasets(self):
+            if collective:
+                name = '%s-%s_000' % (self.h5_main.name.split('/')[-1], self.process_name)
+                if name in self.h5_main.parent:
+                    self.h5_results_grp = self.h5_main.parent[name]
+                    self.h5_results = self.h5_results_grp['Results']
+                    return
             self.h5_results_grp = create_results_group(self.h5_main, self.process_name,
                                                        h5_parent_group=self._h5_target_group)
             write_simple_attrs(self.h5_results_grp, self.parms_dict)
